@@ -391,7 +391,13 @@ def c19_4(ctx):
     ctx.check(ok, 'isa-version:validated', init.site(h[0]) if h else init.site(), 'an ISA version that is not wholly a semantic version is rejected', '')
 
 
-RULES = [c19_1, c19_validated, c19_2, c19_3, c19_4]
+def c19_namespace(ctx):
+    """Macro names are distinct from instruction names (C10.4), compared in the spelling the set is keyed by."""
+    from rules.c10 import c10_4
+    c10_4(ctx)
+
+
+RULES = [c19_1, c19_validated, c19_2, c19_3, c19_4, c19_namespace]
 
 _M = 'assembler/model/__init__.py'
 _IS = 'assembler/model/instruction_set.py'
